@@ -83,13 +83,23 @@ func Random(seed uint64, i int) *Case {
 		vg.DynPool = append(vg.DynPool, (&tygen.TGen{R: r.Fork(uint64(100 + k)), MaxDepth: 2}).Type(0))
 	}
 	v := vg.Value(t, 0)
-	if r.Chance(1, 3) { // pass a pointer: the pointee is addressable
+	for v.IsValid() && v.Kind() == reflect.Interface { // Marshal(v interface{}) never sees a static interface type
+		if v.IsNil() {
+			v = reflect.Value{}
+			break
+		}
+		v = v.Elem()
+		t = v.Type()
+	}
+	if v.IsValid() && r.Chance(1, 3) { // pass a pointer: the pointee is addressable
 		p := reflect.New(t)
 		p.Elem().Set(v)
 		v = p
 	}
-	c := &Case{ID: fmt.Sprintf("r%d", i), V: v, Regime: reg}
-	c.Feat = tygen.Feat(v)
+	c := &Case{ID: fmt.Sprintf("r%d", i), V: v, Regime: reg, Feat: tygen.Features{}}
+	if v.IsValid() {
+		c.Feat = tygen.Feat(v)
+	}
 	return c
 }
 
